@@ -337,6 +337,58 @@ theorem stage2_rows (cfg : Cfg) (hns : cfg.sortGroupsByLabel = false) (train : T
   refine ⟨fun k hk => Nat.lt_of_lt_of_le (fitted_labels_bounded col w.comb hcov k hk) hle, ?_⟩
   exact fitted_groups_frequent cfg hns train.rows col w.comb hc hcov (viable_train hv).1
 
+/-! ## … and the target rate that is ranked is the mean of the target over the rows of each label -/
+
+/-- the table sums the target over the rows of each modality (the other half of what `_aggregator` computes) -/
+def Sums (t : List (String × Row)) (col : List String) (y : List Rat) : Prop :=
+  ∀ l, (lookupRow t l).s = sumWhere (fun c => c == l) col y
+
+/-- mean of the target over the rows that `transform` sends to the `i`-th label (`none`: no such row) -/
+def meanOfLabel (comb : List (List String)) (col : List String) (y : List Rat) (i : Nat) : Option Rat :=
+  if (col.map (groupIdx comb)).count i == 0 then none
+  else some (sumWhere (fun c => groupIdx comb c == i) col y / (((col.map (groupIdx comb)).count i : Nat) : Rat))
+
+/-- **The target rates `_test_viability` compares and ranks are the means of the target over the rows of each output
+    label** — on the train sample and, with the dev table and column, on the dev sample: the distinct-rate test and the
+    train/dev rank test of `viable_train` / `viable_dev` speak of `groupby(label)[y].mean()` of the transformed samples. -/
+theorem rates_rows (cfg : Cfg) (hns : cfg.sortGroupsByLabel = false) (t : List (String × Row))
+    (col : List String) (y : List Rat) (comb : List (List String))
+    (hc : Counts t col) (hs : Sums t col y) (hcov : Covers comb col) :
+    (grouper cfg t comb).map (fun p => rate p.2) = (List.range comb.length).map (meanOfLabel comb col y) := by
+  have hrows := grouper_rows cfg hns t comb hcov.nonempty
+  have : (grouper cfg t comb).map (fun p => rate p.2) = ((grouper cfg t comb).map (·.2)).map rate := by
+    rw [List.map_map]; rfl
+  rw [this, hrows]
+  apply List.ext_getElem
+  · simp
+  · intro i h1 _
+    have hi : i < comb.length := by simpa using h1
+    simp only [List.getElem_map, List.getElem_range]
+    obtain ⟨hn, hp⟩ := group_row_counts t col comb hc hcov i hi
+    have hsum : (groupRow t comb[i]).s = sumWhere (fun c => groupIdx comb c == i) col y := by
+      unfold groupRow
+      rw [fold_rows_s]
+      simp only [Row.zero]
+      have hnd : comb[i].Nodup := nodup_of_mem_flatten comb hcov.nodup _ (List.getElem_mem _)
+      have h1 : (comb[i].map (fun x => (lookupRow t x).s)) = comb[i].map (fun x => sumWhere (fun c => c == x) col y) := by
+        apply List.map_congr_left; intro x _; exact hs x
+      rw [h1, sum_sumWhere_group col y comb[i] hnd]
+      have h2 : sumWhere (fun c => comb[i].contains c) col y = sumWhere (fun c => groupIdx comb c == i) col y := by
+        apply sumWhere_congr
+        intro c _
+        have := groupIdx_eq_iff comb i hi c hcov.nodup
+        cases hcc : comb[i].contains c
+        · have hv : c ∉ comb[i] := by simpa using hcc
+          have hne : groupIdx comb c ≠ i := fun h => hv (this.1 h)
+          simpa using hne
+        · have hv : c ∈ comb[i] := by simpa using hcc
+          simpa using this.2 hv
+      rw [h2]
+      grind
+    unfold rate meanOfLabel
+    rw [hp, hn, hsum]
+    simp
+
 /-! ## … and the group index is what `transform` outputs -/
 
 /-- **The transformed column is the column of group indices, label by label**: for a fitted qualitative feature (order `g`,
